@@ -16,7 +16,7 @@ from ..dataflow import Flow, chain, call_name
 from ..ordtype import weak_orderings, Ordering, Evaluator
 from ..poly import Poly, le, lt, eq
 from ..absint import Interp
-from ..terms import Terms, reify, plain, match, V, ANY, show, alternatives
+from ..terms import Terms, reify, plain, match, V, ANY, show, alternatives, subterms
 from ..util import calls_in, qual, formals, returns_of, has_fact
 
 MOD = "rig.type_casts"
@@ -171,6 +171,11 @@ def r2_array(program, folder, rep):
             table = {}
             for k, v in zip(st.value.keys, st.value.values):
                 table[folder.eval(k, {}, init._module)] = unparse(v)
+    if widths is None or table is None:
+        raise AnalysisError("NumpyFloatToFixConverter: the admitted widths "
+                            "or the dtype table were not found in the form "
+                            "analysed (a test `n_bits not in <tuple>` in "
+                            "__init__, a class-level dict display)")
     ok = widths is not None and table is not None and \
         set(table) == set((s, b) for s in (True, False) for b in widths)
     rep.check(ok, "C16-R2", qual(cls), "the dtype table has exactly one "
@@ -207,9 +212,28 @@ def r2_array(program, folder, rep):
         if m is not None:
             kw = dict(m["kw"])
             okr = kw.get("dtype") == ("attr", SELF, "dtype")
-            m2 = match(("call", ("attr", ("global", "np"), "clip"),
-                        (V("v"), ("attr", SELF, "min_value"),
-                         ("attr", SELF, "max_value")), ()), m["x"])
+            NP = ("global", "np")
+            LO, HI = ("attr", SELF, "min_value"), ("attr", SELF, "max_value")
+            m2 = None
+            for pat in (
+                    ("call", ("attr", NP, "clip"), (V("v"), LO, HI), ()),
+                    ("call", ("attr", NP, "minimum"),
+                     (("call", ("attr", NP, "maximum"), (V("v"), LO), ()),
+                      HI), ()),
+                    ("call", ("attr", NP, "minimum"),
+                     (HI, ("call", ("attr", NP, "maximum"), (V("v"), LO),
+                           ())), ()),
+                    ("call", ("attr", NP, "maximum"),
+                     (("call", ("attr", NP, "minimum"), (V("v"), HI), ()),
+                      LO), ())):
+                m2 = m2 or match(pat, m["x"])
+            if m2 is None and not any(
+                    st_[0] == "call" and st_[1][0] == "attr" and
+                    st_[1][2] in ("clip", "minimum", "maximum")
+                    for st_ in subterms(m["x"])):
+                raise AnalysisError("NumpyFloatToFixConverter.__call__: the "
+                                    "saturation step was not found in the "
+                                    "form analysed")
             if m2 is not None:
                 okc = _poly(cfl, m2["v"]) == Poly.atom(vals) * cfl._pow2(
                     Poly.atom("self.n_frac"))
